@@ -8,14 +8,16 @@ Quot.sound}, is an undischarged obligation and fails the check.
 OBLIGATIONS = {
     "C13": [
         "Mx.mutex_exclusion", "Mx.PReach.exclusion", "Mx.purge_only_free", "Mx.purge_forgets_no_waiter",
-        "Mx.held_entry_not_stale", "Mx.reach_conforms", "Mx.reach_exclusion_log", "Mx.checkExclusion_none_iff",
-        "Mx.checkTrace_none_iff",
+        "Mx.held_entry_not_stale", "Mx.reach_conforms", "Mx.reach_exclusion_log", "Mx.Exec.checkExclusion_none_iff",
+        "Mx.Exec.checkTrace_none_iff", "Mx.Exec.checkTrace_some", "Mx.Exec.exclEvent_lockRet", "Mx.Exec.acqEvent_spec",
+        "Mx.Exec.purgeEvent_spec",
     ],
     "C14": [
         "Mx.deadlock_free", "Mx.waiter_has_holder", "Mx.progress_measure", "Mx.env_measure", "Mx.stuck_done",
         "Mx.all_locks_return", "Mx.all_locks_return_env_free", "Mx.every_lock_returns", "Mx.no_infinite_run_finite_env",
         "Mx.release_admits_exactly_one", "Mx.release_without_waiters_admits_none", "Mx.lock_free_key", "Mx.sendTok_partner",
-        "Mx.mgr_returns_idle", "Mx.spurious_unlock_noop", "Mx.spur_pending_step",
+        "Mx.mgr_returns_idle", "Mx.spurious_unlock_noop", "Mx.spur_pending_step", "Mx.reach_conforms",
+        "Mx.Exec.relEvent_spec", "Mx.Exec.relEvent_free_noop",
     ],
     "C15": ["Drf.conflict_separated"],
     "C16": [],
